@@ -233,31 +233,40 @@ def prParams : List Bytes → List Bytes → List Bytes
   | n :: ns, t :: ts => (n ++ bytesOfString ": " ++ t) :: prParams ns ts
 
 mutual
-def pr : Ty → Bytes
-  | .multi l => sepBy (bytesOfString " | ") ((prList l).filter (· != []))
-  | .normal n => n
-  | .array t => pr t ++ bytesOfString "[]"
-  | .tableE => bytesOfString "table"
-  | .table k v => bytesOfString "table<" ++ pr k ++ bytesOfString ", " ++ pr v ++ bytesOfString ">"
-  | .func ns _ tys rets =>
-    bytesOfString "function(" ++ sepBy (bytesOfString ", ") (prParams ns (prList tys)) ++ bytesOfString ")" ++
-      (match prList rets with
+/-- `TypeConvertStr` (grouped = false) / `typeConvertGroupStr` (grouped = true: the item of an array or a member of
+    a union, where a union of several types keeps its parentheses — repair of finding C16-K4) -/
+def prG : Bool → Ty → Bytes
+  | grouped, .multi l =>
+    let ps := (prGList true l).filter (· != [])
+    let s := sepBy (bytesOfString " | ") ps
+    if grouped && ps.length > 1 then [40] ++ s ++ [41] else s
+  | _, .normal n => n
+  | _, .array t => prG true t ++ bytesOfString "[]"
+  | _, .tableE => bytesOfString "table"
+  | _, .table k v => bytesOfString "table<" ++ prG false k ++ bytesOfString ", " ++ prG false v ++ bytesOfString ">"
+  | _, .func ns _ tys rets =>
+    bytesOfString "function(" ++ sepBy (bytesOfString ", ") (prParams ns (prGList false tys)) ++ bytesOfString ")" ++
+      (match prGList false rets with
        | [] => []
        | rs => bytesOfString ": " ++ sepBy (bytesOfString ", ") rs)
-  | .const n q => if q then [34] ++ n ++ [34] else n
-def prList : List Ty → List Bytes
-  | [] => []
-  | t :: r => pr t :: prList r
+  | _, .const n q => if q then [34] ++ n ++ [34] else n
+def prGList : Bool → List Ty → List Bytes
+  | _, [] => []
+  | g, t :: r => prG g t :: prGList g r
 end
+
+/-- `TypeConvertStr` -/
+def pr (t : Ty) : Bytes := prG false t
 
 /-! ### the canonical fragment: what print-and-read preserves -/
 
 mutual
-/-- a name, `table`, or `table<K, V>` over canonical unions -/
+/-- a name, `table`, `table<K, V>` over canonical unions, or a parenthesised canonical union -/
 def canonB : Ty → Bool
   | .normal _ => true
   | .tableE => true
   | .table k v => canonM k && canonM v
+  | .multi (t :: t2 :: l) => canonS t && canonL (t2 :: l)   -- a parenthesised union of at least two types
   | _ => false
 /-- a base type, or an array (of arrays …) of a base type -/
 def canonS : Ty → Bool
@@ -278,6 +287,7 @@ def toksB : Ty → List Tok
   | .normal n => [.ident n]
   | .tableE => [.kw .table]
   | .table k v => [.kw .table, .lt] ++ toksM k ++ [.comma] ++ toksM v ++ [.gt]
+  | .multi (t :: t2 :: l) => .lparen :: (toksS t ++ toksL (t2 :: l)) ++ [.rparen]
   | _ => []
 def toksS : Ty → List Tok
   | .array t => toksS t ++ [.lbrack, .rbrack]
@@ -295,6 +305,7 @@ mutual
 /-- fuel that suffices to read the printed form back -/
 def costB : Ty → Nat
   | .table k v => max (costM k) (costM v) + 2
+  | .multi (t :: t2 :: l) => max (costS t) (costL (t2 :: l)) + 3
   | _ => 1
 def costS : Ty → Nat
   | .array t => costS t
